@@ -176,21 +176,30 @@ def deleteObserver (st : State) (r c tok : Nat) : State :=
 def touchObserver (st : State) (c tok : Nat) : State :=
   mapRes st fun x => if x.alive then { x with subs := modFirst (matchST c tok) (fun s => { s with failCnt := 0 }) x.subs } else x
 
-/-- coap_add_observer (returns the state; the entry exists afterwards because allocation failures are not modelled) -/
+/-- coap_add_observer, the part that acts on the resource's own list: found by token -> unchanged; else an entry with the
+    same cache key is deleted ("Delete old entry with old token": coap_delete_observer by ITS token, i.e. the first entry
+    of that session with that token) and the new entry is prepended -/
+def addToRes (y : Res) (c tok key m : Nat) : Res :=
+  if y.subs.any (matchST c tok) then y
+  else
+    let subs1 := match y.subs.find? (matchSK c key) with
+                 | some old => y.subs.eraseP (matchST c old.token)
+                 | none => y.subs
+    { y with subs := { sess := c, token := tok, key := key, nonCnt := 0, failCnt := 0, dirty := false, mid := m, lastVer := none } :: subs1 }
+
+/-- coap_add_observer (the entry exists afterwards because allocation failures are not modelled).  Session side: the deleted
+    old entry releases the session, coap_pdu_duplicate_lkd draws a message id, coap_session_reference for the new entry. -/
 def addObserver (st : State) (r c tok key : Nat) : State :=
   match findRes st r with
   | none => st
   | some x =>
     if x.subs.any (matchST c tok) then st            -- found by token: "We are done if subscription was found"
     else
-      -- not found by token: an entry with the same cache key is deleted ("Delete old entry with old token")
       let st1 := match x.subs.find? (matchSK c key) with
-                 | some old => deleteObserver st r c old.token
+                 | some _ => refDec st c
                  | none => st
-      -- coap_pdu_duplicate_lkd draws a message id; coap_session_reference; LL_PREPEND
       let (m, st2) := newMid st1 c
-      let s : Sub := { sess := c, token := tok, key := key, nonCnt := 0, failCnt := 0, dirty := false, mid := m, lastVer := none }
-      refInc (modRes st2 r fun y => { y with subs := s :: y.subs }) c
+      refInc (mapRes st2 fun y => if y.id = r ∧ y.alive then addToRes y c tok key m else y) c
 
 /-- coap_delete_observer_request (Observe = 1): by token, else by cache key -/
 def deleteObserverRequest (st : State) (r c tok key : Nat) : State :=
